@@ -449,18 +449,24 @@ def applyConstructor (c : Ctor) (arity : Nat) (headTy : Ty) (w : List (List DPat
     let fields := (row.drop (row.length - arity)).reverse
     keep ++ [DPat.mk c fields headTy])
 
-/-- `DeconstructedPat::missing_from_ctor` (monomorphic nominal types: an enum has no type
-    arguments, so a missing variant gets no fields) -/
-def missingFromCtor (c : Ctor) (ty : Ty) : DPat :=
+/-- `DeconstructedPat::missing_from_ctor`: a missing product gets one wildcard per component, a
+    missing variant one wildcard for its payload unless the payload type is `void` -/
+def missingFromCtor (env : EnumEnv) (c : Ctor) (ty : Ty) : DPat :=
   match ty with
   | .struct _ ts => if c == .product then .mk c (ts.map (wildOf .nonExh)) ty else .mk c [] ty
   | .tuple ts => .mk c (ts.map (wildOf .nonExh)) ty
+  | .enum _ =>
+    match c with
+    | .variant e i =>
+      let d := dataTy env e i
+      if d.isVoid then .mk c [] ty else .mk c [wildOf .nonExh d] ty
+    | _ => .mk c [] ty
   | _ => .mk c [] ty
 
 /-- `WitnessMatrix::apply_missing_constructors` -/
-def applyMissing (missing : List Ctor) (headTy : Ty) (w : List (List DPat)) : List (List DPat) :=
+def applyMissing (env : EnumEnv) (missing : List Ctor) (headTy : Ty) (w : List (List DPat)) : List (List DPat) :=
   if missing.isEmpty then w
-  else missing.flatMap (fun c => w.map (fun row => row ++ [missingFromCtor c headTy]))
+  else missing.flatMap (fun c => w.map (fun row => row ++ [missingFromCtor env c headTy]))
 
 /-! ## The algorithm -/
 
@@ -481,7 +487,7 @@ def stepCtor (env : EnumEnv) (rec : List Ty → List Row → Option Result)
   match rec (specTys env headTy c ++ restTys) spec with
   | none => none
   | some (cf, w) =>
-    let w' := if c.isNonExh then applyMissing missing headTy w else applyConstructor c arity headTy w
+    let w' := if c.isNonExh then applyMissing env missing headTy w else applyConstructor c arity headTy w
     some (unspecialize acc.1 spec cf, acc.2 ++ w')
 
 def foldCtors (step : Result → Ctor → Option Result) : Result → List Ctor → Option Result
